@@ -20,6 +20,24 @@ def mc_info(prog):
             'grant': fields.index(mc['reply'][0]), 'n_fields': len(fields), 'claim_event': claim}
 
 
+CLIENT_POOL = ['A', 'B', 'C', 'D', 'E', 'a', 'AA', 'A1', 'client2', 'client10', 'client1', 'gui',
+               'cli', 'web', 'Z', '0', '_x', 'B.b', 'b-1']
+
+
+def client_ids(rng, count: int) -> List[str]:
+    """Client identifiers in registration order.  Identifiers are user-chosen strings kept in
+    an ordered container by the selector, so their spelling and the order of registration are
+    input dimensions: near-duplicates, numbered families whose textual order differs from the
+    numeric one, registration in ascending, descending and arbitrary order."""
+    ids = rng.sample(CLIENT_POOL, count)
+    shape = rng.randrange(4)
+    if shape == 0:
+        ids.sort()
+    elif shape == 1:
+        ids.sort(reverse=True)
+    return ids
+
+
 def preamble(prog, clients=('A', 'B'), shape: Optional[str] = None, skip: Optional[str] = None,
              skip_client: str = '-') -> List[str]:
     lines = [f'construct {shape if shape is not None else prog.locator_shape()}']
